@@ -240,3 +240,31 @@ def facilities_check_expectation(scope, origin):
                     'if (locator.try_get<dzn::runtime>() == nullptr) throw std::runtime_error("' + scope.name +
                     ': Dezyne runtime missing (dzn::runtime)");',
                     'return locator;'],)
+
+
+# ------------------------------------------------------------------- C04 C13: the multi-client settings of one port
+from dznpy.ast import Enum
+from dznpy.scoping import NamespaceIds
+from dznpy.adv_shell.types import MultiClientCfgError
+from dznpy.adv_shell.common import MultiClientPortCfgFixture
+
+
+def multiclient_fixture(cfg, candidate_port_name, itf, fct):
+    """no settings, or settings for another port: nothing.  Otherwise the claim and release events are the (first)
+    events of the interface with the configured names, the granting reply is the configured field of THE enum the claim
+    event's reply type denotes from the interface's scope; anything else is a diagnosed configuration error"""
+    if cfg is None or candidate_port_name != cfg.port_name:
+        return None
+    claims = [e for e in itf.events.elements if e.name == cfg.claim_event_name]
+    if not claims:
+        raise MultiClientCfgError('claim event not found')
+    found = ghost.lookup(fct, claims[0].signature.type_name.value, itf.fqn)
+    if len(found) != 1 or not isinstance(found[0], Enum):
+        raise MultiClientCfgError('the reply type of the claim event is not (exactly one) enum')
+    reply = cfg.claim_granting_reply_value.items[0]
+    if reply not in found[0].fields.elements:
+        raise MultiClientCfgError('not a value of the reply type')
+    releases = [e for e in itf.events.elements if e.name == cfg.release_event_name]
+    if not releases:
+        raise MultiClientCfgError('release event not found')
+    return MultiClientPortCfgFixture(claims[0], NamespaceIds(found[0].fqn.items + [reply]), releases[0])
